@@ -266,9 +266,9 @@ def run(ctx: Ctx):
         return "infra"
     logging.disable(logging.CRITICAL)
     quick = ctx.tier == "quick"
-    fixed_length(ctx, 60 if quick else 4000)
-    numeric_values(ctx, 150 if quick else 4000)
-    count_completion(ctx, 250 if quick else 8000)
+    fixed_length(ctx, 60 if quick else 1500)
+    numeric_values(ctx, 150 if quick else 3000)
+    count_completion(ctx, 250 if quick else 4000)
     ctx.obligation("certification: every result of create_fixed_length_tree / extract_model_value / count on the explored inputs is accepted by the proved checkers", not ctx.violations)
     if not ok and not ctx.violations:
         ctx.violation("proof-obligation-broken", "a proof obligation of C14 no longer checks", {"broken": [n for n, o, _ in ctx.obligations if not o]}, found_input=False)
